@@ -30,7 +30,6 @@ import (
 	"fmt"
 	"reflect"
 	"runtime/debug"
-	"sort"
 	"strings"
 	"sync"
 	"time"
@@ -82,10 +81,10 @@ type c17SyncWorld struct {
 	mess *standardsynccommitteemessenger.Service
 	agg  *standardsynccommitteeaggregator.Service
 
-	acct   map[uint64]bool           // members with an account in the by-index lookup (per history, read-only)
-	script [24]c17SyncScript         // by real slot
-	blocks map[phase0.Root]string    // head block (by node) -> answer of the head block fetch
-	slow   string                    // the interface that is slow in this repetition: "", root, block, sign
+	acct   map[uint64]bool        // members with an account in the by-index lookup (per history, read-only)
+	script [24]c17SyncScript      // by real slot
+	blocks map[phase0.Root]string // head block (by node) -> answer of the head block fetch
+	slow   string                 // the interface that is slow in this repetition: "", root, block, sign
 
 	submitMu sync.Mutex
 	msgs     map[uint64][]uint64 // slot -> validators whose message was submitted
@@ -605,11 +604,6 @@ func (c *c17Sync) TakeEvents() []map[string]interface{} {
 			}
 		}
 	}
-	keys := make([]int, 0, len(ptrs))
-	for _, n := range ptrs {
-		keys = append(keys, n)
-	}
-	sort.Ints(keys)
 	evs = append(evs, map[string]interface{}{"ev": "Alias", "obj": "idx", "records": recs, "objects": len(ptrs), "members": members,
 		"accountless": len(c17SyncMembers) - len(w.acct)})
 	return evs
